@@ -49,6 +49,12 @@ def run(chk):
         ("-l single far line", ["bt=l", "d=0a", "b=" + hx("999"), "j=1"]),
     ]:
         scen.append((name, [(extra + ["pat=" + rec, f"count={r}"], r * 10) for r in rec_counts]))
+    recz = hx(b"aa-bbb-cc\0")
+    for name, extra in [
+        ("-z -l ascending, many lines", ["bt=l", "d=00", "z=1", "b=" + hx("2,5:"), "j=1"]),
+        ("-z -f fast path, many records", ["d=" + hx("-"), "z=1", "b=" + hx("2,1")]),
+    ]:
+        scen.append((name, [(extra + ["pat=" + recz, f"count={r}"], r * 10) for r in rec_counts]))
     rows = []
     for name, runs in scen:
         peaks = []
